@@ -201,10 +201,15 @@ func pre(s ast.Stmt, inPoints bool) []ast.Stmt {
 func rewriteSelect(st *ast.SelectStmt) ast.Stmt {
 	var chans []ast.Expr
 	sw := &ast.SwitchStmt{Body: &ast.BlockStmt{}}
-	for i, c := range st.Body.List {
+	hasDefault := false
+	n := 0
+	for _, c := range st.Body.List {
 		cc := c.(*ast.CommClause)
 		if cc.Comm == nil {
-			die(cc.Pos(), "select with a default clause is not supported")
+			// select with default = a non-blocking poll: the default branch runs iff no channel is ready
+			hasDefault = true
+			sw.Body.List = append(sw.Body.List, &ast.CaseClause{List: nil, Body: block(cc.Body, false)})
+			continue
 		}
 		var recv *ast.UnaryExpr
 		switch cm := cc.Comm.(type) {
@@ -222,9 +227,14 @@ func rewriteSelect(st *ast.SelectStmt) ast.Stmt {
 		generated[cc.Comm] = true
 		chans = append(chans, recv.X)
 		body := append([]ast.Stmt{cc.Comm}, block(cc.Body, false)...)
-		sw.Body.List = append(sw.Body.List, &ast.CaseClause{List: []ast.Expr{&ast.BasicLit{Kind: token.INT, Value: strconv.Itoa(i)}}, Body: body})
+		sw.Body.List = append(sw.Body.List, &ast.CaseClause{List: []ast.Expr{&ast.BasicLit{Kind: token.INT, Value: strconv.Itoa(n)}}, Body: body})
+		n++
 	}
-	sw.Tag = call("AwaitSelect", chans...)
+	if hasDefault {
+		sw.Tag = call("PollSelect", chans...)
+	} else {
+		sw.Tag = call("AwaitSelect", chans...)
+	}
 	return sw
 }
 
